@@ -91,6 +91,14 @@ def dump(repo: str) -> dict:
         [int(k), int(v.value)] for k, v in const.EXTRA_DEVICE_STATES.items()
     ]
     out["data_types"] = [c.__name__ for c in data_types.DATA_TYPES]
+    # struct-backed wire types in definition order: class name, struct format, struct size (C19)
+    out["struct_formats"] = [
+        [c.__name__, str(c._struct.format), int(c._struct.size)]
+        for c in vars(data_types).values()
+        if isinstance(c, type)
+        and issubclass(c, data_types.BuiltInDataType)
+        and c is not data_types.BuiltInDataType
+    ]
     out["consts"] = {
         "frameStart": frames.FRAME_START,
         "frameEnd": frames.FRAME_END,
@@ -187,6 +195,13 @@ def emit_lean(d: dict) -> dict[str, str]:
     body += "def dataTypes : List String := " + lean_list(
         [lean_str(x) for x in d["data_types"]], 6
     ) + "\n\n"
+    body += (
+        "def structFormats : List (String × String × Nat) := "
+        + lean_list(
+            [f"({lean_str(n)}, {lean_str(f)}, {z})" for n, f, z in d["struct_formats"]], 3
+        )
+        + "\n\n"
+    )
     body += "def schedules : List String := " + lean_list(
         [lean_str(x) for x in d["schedules"]], 5
     ) + "\n\n"
